@@ -60,6 +60,7 @@ ALLOWED = {
     "qmail-smtpd": {0, 1}, "qmail-qmtpd": {0, 100, 111}, "qmail-qmqpd": {0, 100, 111}, "qmail-pop3d": {0, 1},
     "qmail-popup": {0, 1}, "qmail-inject": {0, 100, 111}, "qmail-queue": set(range(0, 100)),
     "qmail-local": set(range(0, 126)), "qmail-lspawn": {0, 111}, "qreceipt": {0, 100, 111}, "qmail-showctl": {0, 111},
+    "qmail-getpw": {0, 100, 111, 112, 113, 114, 115, 116, 117, 118, 119},      # qlx.h statuses
 }
 
 
@@ -430,7 +431,7 @@ def job_lenprobe(bdir, binary):
 # ------------------------------------------------------------------------------------ whole binaries
 
 SMOKE = ("qmail-smtpd", "qmail-qmtpd", "qmail-qmqpd", "qmail-pop3d", "qmail-popup", "qmail-inject", "qmail-queue",
-         "qmail-local", "qmail-queue", "qmail-local", "qmail-lspawn", "qreceipt", "qmail-showctl")
+         "qmail-local", "qmail-queue", "qmail-local", "qmail-lspawn", "qreceipt", "qmail-showctl", "qmail-getpw")
 SMOKE_BINS = tuple(sorted(set(SMOKE) | {"qmail-getpw"}))
 POPUID = 1000
 
@@ -572,6 +573,20 @@ def smoke_case(h, prog, rng, valgrind=False):
         fill_maildir(h.md, POPUID)
         extra["uid"] = POPUID
         return [bp, h.md], env, mut(c20gen.pop3_session(rng)), extra
+    if prog == "qmail-getpw":
+        # the recipient's local part as qmail-lspawn hands it over: every length around the login-name buffer, break
+        # characters at every offset, upper case, 8-bit
+        n = rng.choice(list(range(0, 41)) * 3 + [64, 100, 1000, 5000])
+        base = rng.choice([b"u", b"u", b"root", b"games", b"Joe", b"\xe9"])
+        local = (base * (n // len(base) + 1))[:n]
+        if n and rng.random() < 0.6:
+            for _ in range(rng.randint(1, 3)):
+                k = rng.randrange(0, n + 1)
+                local = local[:k] + b"-" + local[k:]
+        if rng.random() < 0.1:
+            local = c20gen.mutate(rng, local)
+        local = local.replace(b"\0", b"")
+        return [bp, local.decode("latin1")], env, b"", extra
     if prog == "qmail-popup":
         return [bp, "pop.host.test", rng.choice(["/bin/true", "/bin/false"])], env, mut(c20gen.popup_session(rng)), extra
     if prog == "qmail-inject":
